@@ -263,7 +263,7 @@ def jobs(tier):
         for side in (0, 1):
             for op in OPS:
                 out.append({"harness": "engine", "params": {"flavour": f, "nops": 1, "slots": 2, "first": [side, op]}, "label": "engine/%s/1op/2slots/first=%d:%s" % (f, side, op)})
-                if not q and f == "oid":
+                if not q and f == "oid" and side == 0:
                     # two operations, an application call after each, the injected write failure at index 0 (none) or 1
                     out.append({"harness": "engine", "params": {"flavour": f, "nops": 2, "slots": 1, "nfail": 2, "first": [side, op]}, "label": "engine/%s/2ops/1slot/first=%d:%s" % (f, side, op)})
         out.append({"harness": "smart", "params": {"flavour": f, "ncalls": 3}, "label": "smart-api/%s/3-calls" % f})
